@@ -97,3 +97,26 @@ fn concurrent_clones() {
 struct SendSync(S);
 unsafe impl Send for SendSync {}
 unsafe impl Sync for SendSync {}
+
+/// at the share-count ceiling: two threads clone concurrently (both must fall back to private copies) while a third owner
+/// asks for exclusive access -- it must never be granted, and the count must never wrap
+#[test]
+fn ceiling_concurrent_clones() {
+    model(|| {
+        let (mut a, drops) = mk();
+        let b = SendS(a.clone());
+        let c = SendS(a.clone());
+        a.verif_force_count(usize::MAX - 1);            // stored value at the ceiling: every further increment must be refused
+        let t1 = thread::spawn(move || { let b = b; let x = b.0.clone(); assert_eq!(x.as_ref().read(), 7); drop(x); b });
+        let t2 = thread::spawn(move || { let c = c; let x = c.0.clone(); assert_eq!(x.as_ref().read(), 7); drop(x); c });
+        assert!(!a.is_unique(), "exclusive access while two other owners exist");
+        assert!(a.as_mut().is_none(), "mutable access while two other owners exist");
+        assert!(a.verif_count() >= 3, "the share count wrapped");
+        let b = t1.join().unwrap();
+        let c = t2.join().unwrap();
+        assert_eq!(a.verif_count(), usize::MAX);
+        a.verif_force_count(2);                         // back to the true count before releasing
+        drop(b); drop(c); drop(a);
+        assert_eq!(drops.load(Ordering::SeqCst), 3);    // the payload and the two private copies
+    });
+}
